@@ -14,14 +14,7 @@
 
 //go:build verif
 
-package blobstore
-
-import (
-	"context"
-	"io"
-
-	"golang.org/x/sync/errgroup"
-)
+package datas
 
 // Verification vocabulary (ghost code, compiled only with -tags verif). The
 // bodies are executable so that contracts can also be run concretely.
@@ -66,28 +59,3 @@ func verif_rangeidx() int { return 0 }
 
 // verif_arg stands for the i-th argument of the call a call-site assertion is attached to (contracts only).
 func verif_arg[T any](i int) T { var z T; return z }
-
-// ---- the documented meaning of a BlobRange over a blob of |size| bytes
-
-// verif_range_start: negative offsets count from the end.
-func verif_range_start(br BlobRange, size int64) int64 {
-	if br.offset < 0 {
-		return size + br.offset
-	}
-	return br.offset
-}
-
-// verif_range_end: length 0 means "to the end"; a range running past the end is clamped.
-func verif_range_end(br BlobRange, size int64) int64 {
-	s := verif_range_start(br, size)
-	if br.length == 0 || s+br.length > size {
-		return size
-	}
-	return s + br.length
-}
-
-func verif_x_Reader_Read(r io.Reader, p []byte) (n int, err error) { return r.Read(p) }
-
-func verif_x_errgroup_WithContext(ctx context.Context) (g *errgroup.Group, c context.Context) {
-	return errgroup.WithContext(ctx)
-}
